@@ -36,6 +36,9 @@ def check_value(c):
     bc = guard(Bits, b)
     is_vec(bc, x, n, "Bits(Bits)")
     is_vec(guard(Bits, b, n + 2), x, n + 2, "Bits(Bits,size)")
+    for m in sorted({0, n // 2, max(n - 1, 0)}):
+        is_vec(guard(Bits, b, m), x & ((1 << m) - 1), m, "Bits(Bits,size<len)")
+        is_vec(guard(Bits, b, size=m), x & ((1 << m) - 1), m, "Bits(Bits,size<len)")
     is_vec(b, x, n, "Bits(Bits,size):source-changed")
     # conversions out
     eq(guard(b.int), x, "int()")
